@@ -13,6 +13,7 @@ pub mod c03;
 pub mod c04;
 pub mod c10;
 pub mod smooth;
+pub mod classify;
 
 pub fn lookup(id: &str) -> Option<Prop> {
     Some(match id {
@@ -25,6 +26,8 @@ pub fn lookup(id: &str) -> Option<Prop> {
         "C13" => Prop { header: smooth::H13, generate: smooth::gen13, exec: smooth::exec13 },
         "C14" => Prop { header: smooth::H14, generate: smooth::gen14, exec: smooth::exec14 },
         "C06" => Prop { header: smooth::H06, generate: smooth::gen06, exec: smooth::exec06 },
+        "C08" => Prop { header: classify::H08, generate: classify::gen08, exec: classify::exec08 },
+        "C09" => Prop { header: classify::H09, generate: classify::gen09, exec: classify::exec09 },
         _ => return None,
     })
 }
